@@ -78,6 +78,14 @@ type modelProbe struct {
 }
 
 type Unit struct {
+	frameOn      bool
+	frameOff     int // >0: writes are not checked (copy-in of interior pointers etc.)
+	frameKey     string
+	frameAllowed []frameEntry
+	frameGhost   map[string]bool
+	frameSeen    map[string]bool
+	curReach     Term // reach condition of the instruction being executed
+	zextOf map[string]Term // names defined as zero extensions -> the narrow operand
 	eng    *Engine
 	tc     *typeCtx
 	name   string
@@ -259,7 +267,8 @@ func (u *Unit) liveAxiom(name, version, frontier string) {
 	case KSlice:
 		body = fmt.Sprintf("(< (s-ref %s) %s)", selq, frontier)
 	case KIface:
-		body = fmt.Sprintf("(< (i-val %s) %s)", selq, frontier)
+		// (the nil interface value carries no payload)
+		body = fmt.Sprintf("(and (< (i-val %[1]s) %[2]s) (=> (= (i-tag %[1]s) 0) (= (i-val %[1]s) 0)))", selq, frontier)
 	case KStruct:
 		// references held in the fields of a struct value stored in the heap
 		st := u.eng.heapStructs[name]
@@ -278,7 +287,7 @@ func (u *Unit) liveAxiom(name, version, frontier string) {
 			case KSlice:
 				parts = append(parts, fmt.Sprintf("(< (s-ref %s) %s)", fsel, frontier))
 			case KIface:
-				parts = append(parts, fmt.Sprintf("(< (i-val %s) %s)", fsel, frontier))
+				parts = append(parts, fmt.Sprintf("(< (i-val %[1]s) %[2]s) (=> (= (i-tag %[1]s) 0) (= (i-val %[1]s) 0))", fsel, frontier))
 			}
 		}
 		if len(parts) == 0 {
@@ -456,24 +465,29 @@ func (u *Unit) store(st *State, p Val, v Term) {
 			for i := 0; i < eu.NumFields(); i++ {
 				hn, hs, fs := u.fieldHeapName(el, i)
 				fv := Term{"(" + u.tc.fieldSel(sn, i) + " " + v.S + ")", fs}
+				u.frameWrite(hn, p, nil, nil, "struct store")
 				u.setHeap(st, hn, hs, sto(u.heap(st, hn, hs), p, fv))
 			}
 		case *types.Array:
 			hn, hs, _ := u.elemHeapName(eu.Elem())
+			u.frameWrite(hn, p, nil, nil, "array store")
 			u.setHeap(st, hn, hs, sto(u.heap(st, hn, hs), p, v))
 		default:
 			hn, hs, _ := u.boxHeapName(el)
+			u.frameWrite(hn, p, nil, nil, "store through pointer")
 			u.setHeap(st, hn, hs, sto(u.heap(st, hn, hs), p, v))
 		}
 		return
 	case *PtrPath:
 		switch p.Kind {
 		case "global":
+			u.frameGhostWrite("glob." + p.Global.Pkg.Pkg.Name() + "." + p.Global.Name())
 			u.setGhost(st, "glob."+p.Global.Pkg.Pkg.Name()+"."+p.Global.Name(), v)
 			return
 		case "field":
 			if b, ok := p.Base.(Term); ok {
 				hn, hs, _ := u.fieldHeapName(p.Struct, p.Field)
+				u.frameWrite(hn, b, nil, nil, "field store")
 				u.setHeap(st, hn, hs, sto(u.heap(st, hn, hs), b, v))
 				return
 			}
@@ -497,9 +511,14 @@ func (u *Unit) store(st *State, p Val, v Term) {
 				if b.T.K == KSlice {
 					ref := sliceRef(b)
 					inner := Term{"(select " + h.S + " " + ref.S + ")", nil}
+					ai := add(sliceOff(b), p.Idx)
+					ai1 := add(ai, Term{"1", sInt})
+					u.frameWrite(hn, ref, &ai, &ai1, "element store")
 					u.setHeap(st, hn, hs, sto(h, ref, sto(inner, add(sliceOff(b), p.Idx), v)))
 				} else {
 					inner := Term{"(select " + h.S + " " + b.S + ")", nil}
+					ai1 := add(p.Idx, Term{"1", sInt})
+					u.frameWrite(hn, b, &p.Idx, &ai1, "array element store")
 					u.setHeap(st, hn, hs, sto(h, b, sto(inner, p.Idx, v)))
 				}
 				return
